@@ -15,6 +15,10 @@
 (*   ReportInMem          the replica advertises its in-memory precommit   *)
 (*   SkipPrecommitCheck   the primary does not compare the precommitted    *)
 (*                        alh of the replica state with its own history    *)
+(*   SkipPrecommitCheckBelowCommitted   ... only skips it when the         *)
+(*                        replica's precommitted id is at or below the     *)
+(*                        primary's own committed tx ("covered by the      *)
+(*                        commit-state validation")                        *)
 (*   SkipReplicaAlhCheck  the replica accepts an allowance without         *)
 (*                        comparing the alh with the tx it holds           *)
 (*   DiscardKeepsAllowance  a discard leaves the commit allowance of the   *)
@@ -23,8 +27,11 @@
 EXTENDS ReplicationDB, Json
 
 CONSTANTS MaxTx, MaxFail, MaxRestart, SyncRepl, Acks, AllowDiscard, WithReroute, Rejoin,
-          ReportInMem, SkipPrecommitCheck, SkipReplicaAlhCheck, DiscardKeepsAllowance,
-          RecordSched, EmitDepth, First
+          PrimaryAsync,   \* database-level configuration: primaries keep replicaStates (SyncAcks > 0) but commit without waiting for acks
+
+          ReportInMem, SkipPrecommitCheck, SkipPrecommitCheckBelowCommitted, SkipReplicaAlhCheck, DiscardKeepsAllowance,
+          RecordSched, EmitDepth, First,
+          Script    \* directed model checking: the behaviour starts with these steps (labels as recorded in sched); <<>>: free
 
 VARIABLES allow,    \* allow[n]: commit allowance of the store (meaningful with synchronous replication)
           rs,       \* rs[p][r]: replicaStates of primary p: precommitted id informed by r (0: no entry)
@@ -40,14 +47,17 @@ mcvars == <<vars, ivars>>
 Others == Nodes \ {First}
 NoAns == [kind |-> "none", id |-> 0, alh |-> 0, prev |-> 0, may |-> 0, mayalh |-> 0]
 MCInit ==
-  /\ Init([n \in Nodes |-> IF n = First THEN [role |-> "primary", follows |-> None, sync |-> SyncRepl, need |-> IF SyncRepl THEN Acks ELSE 0]
+  /\ Init([n \in Nodes |-> IF n = First THEN [role |-> "primary", follows |-> None, sync |-> SyncRepl /\ ~PrimaryAsync, need |-> IF SyncRepl THEN Acks ELSE 0]
                            ELSE [role |-> "replica", follows |-> First, sync |-> SyncRepl, need |-> 0]])
   /\ allow = [n \in Nodes |-> 0] /\ rs = [p \in Nodes |-> [r \in Nodes |-> 0]]
   /\ lastTx = [n \in Nodes |-> 0] /\ running = [n \in Nodes |-> n # First] /\ pc = [n \in Nodes |-> "idle"]
   /\ ans = [n \in Nodes |-> NoAns] /\ queue = [n \in Nodes |-> {}]
   /\ lost = [n \in Nodes |-> FALSE] /\ nextAlh = 1 /\ nfail = 0 /\ nrestart = 0 /\ bad = {} /\ sched = <<>>
 
-Rec(label) == sched' = IF RecordSched THEN Append(sched, label) ELSE sched
+NoScript == <<>>
+\* (a script needs RecordSched: the position in the script is the length of sched)
+Rec(label) == /\ sched' = IF RecordSched THEN Append(sched, label) ELSE sched
+              /\ (Len(sched) < Len(Script) => Script[Len(sched) + 1] = label)
 \* pairs <<name, guard>>: the names of the false guards are collected
 BadIf(ps) == bad' = bad \cup {p[1] : p \in {q \in ps : ~q[2]}}
 Last(s) == AlhAt(s, Len(s))
@@ -99,13 +109,13 @@ PrimaryServe(r) ==
         THEN /\ ans' = [ans EXCEPT ![r] = [NoAns EXCEPT !.kind = "diverged-commit"]]
              /\ BadIf({<<"replicator-sends-state-it-did-not-read", ArriveG(p, r, has, st)>>, <<"primary-rejects-replica-whose-state-is-a-prefix", AnswerDivergedG(p, r, st)>>})
              /\ UNCHANGED <<allow, rs>>
-        ELSE IF has /\ st.pid > 0 /\ (st.pid > Len(pre[p]) \/ (~SkipPrecommitCheck /\ pre[p][st.pid] # st.palh))
+        ELSE IF has /\ st.pid > 0 /\ (st.pid > Len(pre[p]) \/ (~SkipPrecommitCheck /\ ~(SkipPrecommitCheckBelowCommitted /\ st.pid <= com[p]) /\ pre[p][st.pid] # st.palh))
         THEN /\ ans' = [ans EXCEPT ![r] = [NoAns EXCEPT !.kind = "diverged-precommit"]]
              /\ BadIf({<<"replicator-sends-state-it-did-not-read", ArriveG(p, r, has, st)>>, <<"primary-rejects-replica-whose-state-is-a-prefix", AnswerDivergedG(p, r, st)>>})
              /\ UNCHANGED <<allow, rs>>
         ELSE
           LET may == IF has /\ st.pid > 0 THEN Min(st.pid, com[p]) ELSE 0
-              mayalh == AlhAt(pre[p], may)
+              mayalh == IF has /\ st.pid > 0 /\ st.pid < com[p] THEN st.palh ELSE AlhAt(pre[p], may)      \* the replica's own alh is echoed when it lags
               old == IF rs[p][r] > com[p] THEN rs[p][r] ELSE 0           \* r's entry after the clean-up of entries at or below the committed tx
               counted == has /\ st.pid > com[p]
               lags == counted /\ st.pid < old
@@ -114,7 +124,7 @@ PrimaryServe(r) ==
               newAllow == IF counted /\ ~lags /\ st.pid # old /\ cnt >= need[p] THEN Max(allow[p], Min(MinEntry(e), Len(pre[p]))) ELSE allow[p]
               exists == IF has THEN n <= dur[p] ELSE n <= com[p]
               ackedNew == IF has /\ StatePrefix(p, st) THEN [acked[p] EXCEPT ![r] = Max(@, st.pid)] ELSE acked[p]
-          IN IF lags
+          IN IF lags \/ (~syncOn[p] /\ newAllow # allow[p])            \* (store: "the external commit allowance mode is not enabled")
              THEN /\ ans' = [ans EXCEPT ![r] = [NoAns EXCEPT !.kind = "error"]]           \* "the newly informed replica state lags behind the previously informed one"
                   /\ UNCHANGED <<allow, rs, bad>>
              ELSE
@@ -186,7 +196,7 @@ LoseStep(p) ==
 
 PromoteStep(n) ==
   /\ LivePrimaries = {} /\ role[n] = "replica" /\ ~lost[n]
-  /\ Promote(n, SyncRepl, IF SyncRepl THEN Acks ELSE 0)
+  /\ Promote(n, SyncRepl /\ ~PrimaryAsync, IF SyncRepl THEN Acks ELSE 0)
   /\ running' = [running EXCEPT ![n] = FALSE] /\ pc' = [pc EXCEPT ![n] = "idle"] /\ ans' = [ans EXCEPT ![n] = NoAns]
   /\ allow' = [allow EXCEPT ![n] = com[n]] /\ rs' = [rs EXCEPT ![n] = [x \in Nodes |-> 0]]
   /\ Rec(<<"promote", n>>)
@@ -224,6 +234,8 @@ MCSpec == MCInit /\ [][MCNext]_mcvars
 
 -----------------------------------------------------------------------------
 NoBad == bad = {}
+\* (directed search for the deepest consequence of a weakened variant: a replica commits what its primary did not)
+NoForeignCommit == "replica-commits-what-its-primary-did-not" \notin bad
 MCTypeOK == \A n \in Nodes : com[n] <= dur[n] /\ dur[n] <= Len(pre[n]) /\ Cardinality(queue[n]) <= MaxTx
 \* state form of the property: whatever a replica has committed under an allowance in force is committed, identically, on the node that granted it
 CommittedOnGrantor == \A r \in Nodes : (role[r] = "replica" /\ syncOn[r] /\ allowBy[r] # None) =>
